@@ -380,6 +380,9 @@ func Select(a, i *Term) *Term {
 	if a.S.Idx != i.S {
 		panic(fmt.Sprintf("select index sort mismatch: %s[%s:%s]", a.S, i, i.S))
 	}
+	if a.Op == "constarr" {
+		return a.Args[0]
+	}
 	// read-over-write with syntactically equal / distinct-literal index
 	for a.Op == "store" {
 		if a.Args[1] == i {
@@ -387,6 +390,9 @@ func Select(a, i *Term) *Term {
 		}
 		if a.Args[1].Op == "int" && i.Op == "int" {
 			a = a.Args[0]
+			if a.Op == "constarr" {
+				return a.Args[0]
+			}
 			continue
 		}
 		break
@@ -644,6 +650,31 @@ func hasQuant(t *Term, visited map[*Term]bool) bool {
 		}
 	}
 	return false
+}
+
+// ScriptValues renders a script that asks for the values of the given terms.
+func ScriptValues(asserts []*Term, terms []*Term) string {
+	base := Script(append(append([]*Term{}, asserts...), valueKeepers(terms)...), false)
+	var sb strings.Builder
+	sb.WriteString("(set-option :produce-models true)\n")
+	sb.WriteString(base)
+	sb.WriteString("(get-value (")
+	for _, t := range terms {
+		t.write(&sb)
+		sb.WriteByte(' ')
+	}
+	sb.WriteString("))\n")
+	return sb.String()
+}
+
+// valueKeepers are trivially true assertions that make sure every symbol of the
+// requested terms is declared.
+func valueKeepers(terms []*Term) []*Term {
+	var out []*Term
+	for _, t := range terms {
+		out = append(out, mk("=", "", SBool, nil, nil, t, t))
+	}
+	return out
 }
 
 // Script renders assertions as an SMT-LIB 2.6 script (check-sat + get-model).
